@@ -415,6 +415,52 @@ def run_vi_case(exe, init, cmds, timeout=20):
     return ('bad', bad, texts) if bad else ('ok', texts)
 
 
+FAIL_TAILS = ['/nosuchtext/', '99p', "'zp", 's/nomatchhere/x/', 'w /nonexistent-dir/x', '?nosuchtext?', '99,100d', 'e /nonexistent-dir/y|', 'unknowncmd']
+
+
+def ex_walk(rng):
+    """modifying command lines -- some of them a modifying command + `|` + a FAILING tail (no match, bad
+    address, unset mark, failed write, unknown command) -- then j undos and i <= j redos with no other command
+    line in between: only the bump at the end of ex_command separates the lines"""
+    nl = rng.range(3, 6)
+    init = ''.join('%s%d %s\n' % (rng.choice(WORDS), i, rng.choice(WORDS)) for i in range(nl)).encode()
+    n = rng.choice([2, 2, 3, 4, 6])
+    cmds = []
+    for k in range(n):
+        a = rng.choice(['1', '2', '3', '$'])
+        m = rng.choice(['%ss/^/M%d /' % (a, k), '%ss/$/ N%d/' % (a, k), '%sd' % a, '%sy|%spu' % (a, a), '%ss/./Z%d/' % (a, k)])
+        r = rng.below(3)
+        if r == 0:
+            m = m + '|' + rng.choice(FAIL_TAILS).rstrip('|')
+        elif r == 1:
+            m = m + '|' + rng.choice(['1p', '=', 'ec ok'])
+        cmds.append(('m', m))
+    j = rng.range(1, n)
+    i = rng.range(0, j)
+    return init, cmds, j, i
+
+
+def run_ex_walk(exe, init, cmds, j, i, timeout=20):
+    r = run_ex_case(exe, init, cmds, timeout)          # observed run: reference texts after every line
+    if r[0] != 'ok':
+        return ('incomplete', b'')
+    T = r[1]
+    if any(T[k] == T[k + 1] for k in range(len(cmds))):
+        return ('ambiguous', b'')
+    script = '\n'.join([c for _, c in cmds] + ['u'] * j + ['redo'] * i + ['ec @@1@@', '%p', 'ec @@-@@', 'q!']) + '\n'
+    r = vlib.run_ex(exe, script.encode(), files={'f.txt': init}, args=['f.txt'], timeout=timeout)
+    if r.timed_out or r.crashed():
+        r = vlib.run_ex(exe, script.encode(), files={'f.txt': init}, args=['f.txt'], timeout=3 * timeout)
+        if r.timed_out or r.crashed():
+            return ('crash', 'editor crashed or hung (rc=%s timed_out=%s): %s' % (r.rc, r.timed_out, r.err[-600:]))
+    m = re.search(rb'@@1@@(.*?)@@-@@', r.out, re.S)
+    out = m.group(1) if m else None
+    want = T[len(cmds) - j + i]
+    if out != want:
+        return ('bad', (len(cmds) + j + i - 1, '%d command lines, %d undos, %d redos with nothing in between: the text is not the one after line %d' % (len(cmds), j, i, len(cmds) - j + i), [want], out), T)
+    return ('ok', T)
+
+
 def vi_walk(rng):
     """modifying commands only, then j undos and i <= j redos with NOTHING in between (no ex
     command that would bump the counter): the vi() loop tail alone separates the commands"""
@@ -538,6 +584,11 @@ def run(ctx):
             if got != inp['expect']:
                 res.violation({'what': 'ex: the undo after these command lines did not restore the text before the most recent modifying command line',
                                'input': inp, 'expected': inp['expect'], 'observed': got})
+        elif inp.get('kind') == 'exwalk':
+            r = run_ex_walk(vi, inp['file'].encode('latin-1'), [tuple(c) for c in inp['cmds']], inp['undos'], inp['redos'])
+            res.evaluations += 1
+            if r[0] == 'bad':
+                res.violation({'what': 'ex: ' + r[1][1], 'input': inp, 'expected': repr(r[1][2]), 'observed': repr(r[1][3])})
         elif inp.get('kind') == 'viwalk':
             r = run_vi_walk(vi, inp['file'].encode('latin-1'), [tuple(c) for c in inp['cmds']], inp['undos'], inp['redos'], inp.get('pre', ''))
             res.evaluations += 1
@@ -622,6 +673,21 @@ def run(ctx):
     vis = [vi_keys(r4, r4.choice([5, 9, 14])) for _ in range(nvi)]
     eouts = vlib.pmap(lambda c: run_ex_case(vi, c[0], c[1]), exs)
     vouts = vlib.pmap(lambda c: run_vi_case(vi, c[0], c[1]), vis)
+    r6 = rng.fork('exwalk')
+    xwalks = [ex_walk(r6) for _ in range(nex)]
+    xouts = vlib.pmap(lambda c: run_ex_walk(vi, *c), xwalks)
+    for (init, cmds, j, i), r in zip(xwalks, xouts):
+        res.evaluations += 1
+        res.count('ex undo/redo walks without intervening command lines' + ('' if r[0] in ('ok', 'bad') else ' (%s)' % r[0]))
+        inp = {'kind': 'exwalk', 'file': init.decode('latin-1'), 'cmds': [list(c) for c in cmds], 'undos': j, 'redos': i}
+        if r[0] == 'ok':
+            res.nontriv('xwalk' + repr((init, cmds, j, i)))
+            if any('|' in c and c.split('|')[-1] in FAIL_TAILS for _, c in cmds):
+                res.count('ex walks containing a line with a failing tail')
+        elif r[0] == 'bad' and sum(1 for v in res.violations if v.get('input', {}).get('kind') == 'exwalk') < 2:
+            res.violation({'what': 'ex: ' + r[1][1], 'input': inp, 'expected': repr(r[1][2]), 'observed': repr(r[1][3]), 'texts': [t.decode('latin-1') for t in r[2]]})
+        elif r[0] == 'crash':
+            res.violation({'what': 'ex: ' + r[1], 'input': inp})
     r5 = rng.fork('viwalk')
     walks = [vi_walk(r5) for _ in range(nvi)]
     wouts = vlib.pmap(lambda c: run_vi_walk(vi, *c), walks)
